@@ -163,7 +163,10 @@ def w_squeeze(ctx, rng, idx, mask):
         else:
             rows.append(1)
             cols.append(1)
-    a = gen.rand_tt(rng, rows, cols, gen.rand_ranks(rng, d, 3), gen.rand_cplx(rng))
+    rk = gen.rand_ranks(rng, d, 3)
+    if rng.random() < 0.25:  # a block of tensors: open boundary ranks on either side
+        rk[0], rk[-1] = int(rng.integers(1, 4)), int(rng.integers(1, 4))
+    a = gen.rand_tt(rng, rows, cols, rk, gen.rand_cplx(rng))
     ctx.describe({'op': 'squeeze', 'rows': rows, 'cols': cols, 'ranks': a.ranks})
     call('TT.squeeze', a.squeeze, prop=P)
     if idx < 2:
